@@ -519,7 +519,11 @@ class Compiler:
                 if decl.init:
                     self._compile_expression(decl.init)
                 else:
-                    self._emit(OpCode.LOAD_UNDEFINED)
+                    # `var x;` declares (hoisted) but assigns nothing: a
+                    # variable that already has a value keeps it
+                    if self._in_function:
+                        self._add_local(name)
+                    continue
 
                 if self._in_function:
                     # Inside function: use local variable
